@@ -2,7 +2,7 @@ package main
 
 func init() {
 	registry["C01"] = &propSpec{
-		Rules:       []ruleFn{ruleC01Range},
+		Rules:       []ruleFn{ruleC01Range, ruleC01Head},
 		Explanation: "tbd",
 		NotDecided:  "tbd",
 	}
@@ -14,11 +14,12 @@ func init() {
 	registry["C03"] = &propSpec{Rules: []ruleFn{ruleC03Thresh, ruleC03Gate, ruleFresh("C03-FRESH", fCtl+"UpdateVolStatus")}, Explanation: "tbd", NotDecided: "tbd"}
 	registry["C04"] = &propSpec{Rules: []ruleFn{ruleBuildRW("C04-READERS"), ruleC04Lists("C04-LISTS"), ruleIndexMapUse("C04-READSRC"), ruleC04Verify("C04-VERIFY"), ruleC04Promote("C04-PROMOTE"), ruleC04ReadGate}, Explanation: "tbd", NotDecided: "tbd"}
 	registry["C05"] = &propSpec{Rules: []ruleFn{ruleDetach("C05-DETACH"), ruleC05Monitor("C05-MONITOR"), ruleC04Lists("C05-STOPIO")}, Explanation: "tbd", NotDecided: "tbd"}
-	registry["C07"] = &propSpec{Rules: []ruleFn{ruleC07AddOrder("C07-ADD-ORDER"), ruleCanAdd("C07-ONE-WO"), ruleC04Verify("C07-VERIFY")}, Explanation: "tbd", NotDecided: "tbd"}
+	registry["C07"] = &propSpec{Rules: []ruleFn{ruleC07AddOrder("C07-ADD-ORDER"), ruleC07Merge, ruleCanAdd("C07-ONE-WO"), ruleC04Verify("C07-VERIFY")}, Explanation: "tbd", NotDecided: "tbd"}
 	registry["C09"] = &propSpec{Rules: []ruleFn{ruleC09}, Explanation: "tbd", NotDecided: "tbd"}
 	registry["C13"] = &propSpec{Rules: []ruleFn{ruleC13Ctl, ruleFresh("C13-FRESH", fCtl+"UpdateCheckpoint")}, Explanation: "tbd", NotDecided: "tbd"}
 	registry["C16"] = &propSpec{Rules: []ruleFn{ruleC16Ctl}, Explanation: "tbd", NotDecided: "tbd"}
 	registry["C18"] = &propSpec{Rules: []ruleFn{ruleC18, ruleCanAdd("C18-ADMIT"), ruleC04Promote("C18-MODE")}, Explanation: "tbd", NotDecided: "tbd"}
 	registry["C19"] = &propSpec{Rules: []ruleFn{ruleC19Promote("C19-PROMOTE")}, Explanation: "tbd", NotDecided: "tbd"}
 	registry["C14"] = &propSpec{Rules: []ruleFn{ruleC14Lock}, Explanation: "tbd", NotDecided: "tbd"}
+	registry["C06"] = &propSpec{Rules: []ruleFn{ruleC06Hole, ruleC06Snapstep}, Explanation: "tbd", NotDecided: "tbd"}
 }
